@@ -10,13 +10,21 @@ swvars == <<st, phase, hist, nTx, nFail, todo>>
 
 SweepTail == <<EndEv, ComEv, [a |-> "BeginBlock", dt |-> 1000], EndEv, ComEv>>
 
+\* degenerate inputs: id / height / slot count zero, empty hashes
+Degenerate ==
+  { FeeTx(<<WRec("A1", id, h)>>) : id \in {0, 1}, h \in {0} }
+  \cup { FeeTx(<<[WRec("A1", 1, LastOf("wrk", 1) + 1) EXCEPT !.bh = ""]>>), FeeTx(<<[BRec("A1", 1) EXCEPT !.hash = ""]>>), FeeTx(<<[BRec("A1", 1) EXCEPT !.subt = 0]>>),
+         FeeTx(<<BRec("A1", 0)>>), FeeTx(<<WBuy("A1", 1, 0)>>), FeeTx(<<WBuy("A1", 0, 1)>>), FeeTx(<<BBuy("A1", 1, 0)>>), FeeTx(<<BBuy("A1", 0, 1)>>),
+         FeeTx(<<[t |-> "BReg", owner |-> "A2", moniker |-> "m", name |-> ""]>>) }
+SweepAlphabet == TxAlphabet \cup Degenerate
+
 SwInit ==  /\ st = StateOf(Gen) /\ hist = <<[a |-> "InitChain", g |-> Gen]>>
           /\ todo = SweepPrefix /\ phase = "prefix" /\ nTx = 0 /\ nFail = 0
 SwRun == /\ todo # <<>>
          /\ st' = Step(st, Head(todo)).st /\ hist' = Append(hist, Head(todo)) /\ todo' = Tail(todo)
          /\ UNCHANGED <<phase, nTx, nFail>>
 SwChoose == /\ todo = <<>> /\ phase = "prefix"
-            /\ \E ev \in TxAlphabet :
+            /\ \E ev \in SweepAlphabet :
                  /\ st' = Step(st, ev).st /\ hist' = Append(hist, ev)
                  /\ todo' = SweepTail /\ phase' = "tail" /\ nTx' = 1 /\ UNCHANGED nFail
 SwDone == todo = <<>> /\ phase = "tail" /\ phase' = "done" /\ UNCHANGED <<st, hist, nTx, nFail, todo>>
